@@ -77,10 +77,10 @@ def check_case(case, ctx=None):
     try:
         s2, r2 = gf.assess(sample, jargs)
     except Exception as e:
-        if type(e).__name__ == "MissingAddress" and gfi.has_empty_site(node, run):
+        if gfi.is_empty_sample_rejection(e, node, run):
             # known finding class (recorded under C01/C02): assess rejects a sample that is complete
             # but has no choice under some call site (masked-off call, zero-length vmap)
-            raise Violation("assess_empty_sample", f"assess raised MissingAddress{e.args} on a complete sample with an empty call site", case)
+            raise Violation("assess_empty_sample", f"assess raised {type(e).__name__}{str(e.args)[:120]} on a complete sample that omits non-executed / zero-length code", case)
         raise
     s2 = float(np.asarray(s2))
     if not gfi.close(s2, exp, atol):
